@@ -62,7 +62,7 @@ def gen_case(rng, depth, cols=None, rows=None, allow_from=True):
         rows = [r + (v,) for r, v in zip(rows, ovals)]
         model_rows = [r + (_dec_cast(v), _date_cast(v)) for r, v in zip(rows, ovals)]
         obj = {'o': (n0 + 1, n0 + 2)}
-    g = exprgen.Gen(rng, cols, max_depth=depth, obj=obj)
+    g = exprgen.Gen(rng, cols, max_depth=depth, obj=obj, lib=True)
     targets = [g.expr(rng.choice(exprgen.ALL_TYPES)) for _ in range(rng.randint(1, 3))]
     where = None
     mode = rng.random()
